@@ -138,8 +138,10 @@ def circuits9(draw, max_width=5, max_gates=14, min_width=1, min_gates=0):
 
 
 @st.composite
-def layout_circuits(draw, max_total=6, max_blocks=3, max_block_gates=4, slack=2):
-    """Several blocks on disjoint, unordered, gappy index sets, gates interleaved."""
+def layout_circuits(draw, max_total=6, max_blocks=3, max_block_gates=4, slack=2, sparse=False):
+    """Several blocks on disjoint, unordered, gappy index sets, gates interleaved.
+    sparse=True: at most max_total (<=4) used qubits scattered over indices 0..12 (index sets such as {0, 8} or {2, 9},
+    whose python-set iteration order is not ascending)."""
     nb = draw(st.integers(1, max_blocks))
     widths = []
     for _ in range(nb):
@@ -149,7 +151,7 @@ def layout_circuits(draw, max_total=6, max_blocks=3, max_block_gates=4, slack=2)
     if not widths:
         widths = [1]
     total = sum(widths)
-    span = total + draw(st.integers(0, slack))
+    span = 13 if sparse else total + draw(st.integers(0, slack))
     slots = list(draw(st.permutations(list(range(span)))))[:total]
     gates, off = [], 0
     for bi, w in enumerate(widths):
@@ -264,6 +266,19 @@ def separated_pair(recs):
             if qs & set(gq(h)):
                 break
     return False
+
+
+def compressed(*rec_lists):
+    """Relabel (order-preserving) the indices used by any of the gate lists to 0..k-1, so that circuits living on large
+    sparse indices can be compared on k qubits (idle qubits act as the identity). Returns (k, remapped lists)."""
+    used = sorted({q for recs in rec_lists for g in recs for q in gq(g)})
+    mp = {q: i for i, q in enumerate(used)}
+    return len(used), [remap(recs, mp) for recs in rec_lists]
+
+
+def sparse_label(recs):
+    used = {q for g in recs for q in gq(g)}
+    return {"sparse-index>=8"} if any(q >= 8 for q in used) else set()
 
 
 def base_labels(case):
@@ -629,8 +644,8 @@ def layout_part(ctx):
                 else:
                     if {q for g in rp for q in gq(g)} != set(comp):
                         continue
-                    nn = max(n_used(recs), p.width)
-                    ref, got = R.unitary(sub, nn), R.unitary(rp, nn)
+                    nn, (sub_c, rp_c) = compressed(sub, rp)
+                    ref, got = R.unitary(sub_c, nn), R.unitary(rp_c, nn)
                 if R.equal_up_to_phase(got, ref, 1e-8)[0]:
                     hit = j
                     break
@@ -640,7 +655,7 @@ def layout_part(ctx):
             unused.remove(hit)
         check_unchanged(c, before, "split")
         check_no_alias(c, before, parts, "split")
-        labels = base_labels(case["circ"]) | {f"parts={min(len(comps), 3)}", f"trim={case['trim']}"}
+        labels = base_labels(case["circ"]) | {f"parts={min(len(comps), 3)}", f"trim={case['trim']}"} | sparse_label(recs)
         return len(comps) >= 2 or "index-gaps" in labels, labels
 
     def body_stack(case):
@@ -672,11 +687,13 @@ def layout_part(ctx):
         used = sorted({q for g in recs for q in gq(g)})
         ref = remap(recs, {q: i for i, q in enumerate(used)})
         ro = out_recs(c)
+        if max(c.width, n_used(ro)) > max(len(used), 8):
+            raise Fail(f"trim_qubits: result still uses index {max(c.width, n_used(ro)) - 1} with {len(used)} qubits in use", sig="trim_qubits:not-compact")
         n = max(len(used), c.width, n_used(ro))
         ok, d = R.equal_up_to_phase(R.unitary(ro, n), R.unitary(ref, n), 1e-8)
         if not ok:
             raise Fail(f"trim_qubits: {recs} became {ro}, expected the order-preserving relabelling {ref} (distance {d:.3g})", sig="trim_qubits:action")
-        labels = base_labels(case)
+        labels = base_labels(case) | sparse_label(recs)
         return bool(labels & {"index-gaps", "idle-qubit"}) and len(recs) >= 1, labels
 
     def body_reindex(case):
@@ -687,11 +704,15 @@ def layout_part(ctx):
         c.reindex_qubits(list(new))
         ref = remap(recs, {q: new[i] for i, q in enumerate(tracked)})
         ro = out_recs(c)
-        n = max(n_used(ref), c.width, n_used(ro))
-        ok, d = R.equal_up_to_phase(R.unitary(ro, n), R.unitary(ref, n), 1e-8)
+        n, (ro_c, ref_c) = compressed(ro, ref)          # compare on the indices that occur (idle qubits = identity)
+        if n > 9:
+            raise Fail(f"reindex_qubits({new}): result {ro} and expected {ref} use {n} different indices", sig="reindex_qubits:index-set")
+        ok, d = R.equal_up_to_phase(R.unitary(ro_c, n), R.unitary(ref_c, n), 1e-8)
         if not ok:
-            raise Fail(f"reindex_qubits({new}): {recs} became {ro}, expected {ref} (distance {d:.3g})", sig="reindex_qubits:action")
-        labels = base_labels(case["circ"])
+            sparse = bool(sparse_label(recs)) and not case["circ"].get("nq")
+            raise Fail(f"reindex_qubits({new}): {recs} became {ro}, expected {ref}: i-th smallest tracked index -> new_indices[i] "
+                       f"(distance {d:.3g})", sig="reindex_qubits:action" + (":sparse-index>=8" if sparse else ""))
+        labels = base_labels(case["circ"]) | sparse_label(recs)
         if any(x >= len(tracked) for x in new):
             labels.add("new-index-beyond-N")
         if list(new) != sorted(new):
@@ -699,24 +720,34 @@ def layout_part(ctx):
         return len(recs) >= 1 and list(new) != tracked, labels
 
     @st.composite
-    def reindex_cases(draw):
-        circ = draw(layout_circuits(max_total=5, slack=1))
+    def reindex_cases(draw, sparse=False):
+        circ = draw(layout_circuits(max_total=4, sparse=True) if sparse else layout_circuits(max_total=5, slack=1))
         L = len(model_tracked(circ))
         M = L + draw(st.sampled_from([0, 0, 1, 2]))
+        if sparse and not circ["nq"]:
+            M = max(M, draw(st.sampled_from([L, 9, 13])))
         new = list(draw(st.permutations(list(range(M)))))[:L]
         return {"circ": circ, "new": new}
+
+    def mixed(dense, sparse):
+        return st.one_of(dense, dense, sparse)
 
     @st.composite
     def stack_cases(draw):
         m = draw(st.integers(1, 3))
         mtot = {1: 5, 2: 3, 3: 2}[m]
-        return {"circs": [draw(layout_circuits(max_total=mtot, max_blocks=2, slack=1)) for _ in range(m)],
+        return {"circs": [draw(layout_circuits(max_total=mtot, max_blocks=2, slack=1, sparse=draw(st.integers(0, 3)) == 0)) for _ in range(m)],
                 "form": draw(st.sampled_from(["fn", "method"]))}
 
-    ctx.search("split", st.fixed_dictionaries({"circ": layout_circuits(max_total=mt), "trim": st.booleans()}), body_split, frac=0.3)
-    ctx.search("stack", stack_cases(), body_stack, frac=0.25)
-    ctx.search("trim_qubits", layout_circuits(max_total=mt), body_trim, frac=0.2)
-    ctx.search("reindex_qubits", reindex_cases(), body_reindex, frac=0.25)
+    sp = layout_circuits(max_total=4, sparse=True)       # <=4 used qubits on indices 0..12
+    ctx.search("split", st.fixed_dictionaries({"circ": mixed(layout_circuits(max_total=mt), sp), "trim": st.booleans()}), body_split, frac=0.3)
+    ctx.search("stack", stack_cases(), body_stack, frac=0.2)
+    ctx.search("trim_qubits", mixed(layout_circuits(max_total=mt), sp), body_trim, frac=0.2)
+    ctx.search("reindex_qubits", reindex_cases(), body_reindex, frac=0.15)
+    # own search: a defect that needs sparse large indices cannot hide the dense search (and vice versa)
+    ctx.search("reindex_sparse", reindex_cases(sparse=True), body_reindex, frac=0.15,
+               exclusions={"reindex_qubits:action:sparse-index>=8":
+                           lambda case: not case["circ"].get("nq") and bool(sparse_label(case["circ"]["gates"]))})
 
 
 # ------------------------------------------------------------------------------------------------ part 5: trim_trivial_circuit
